@@ -4,6 +4,7 @@ pub mod c03;
 pub mod c04;
 pub mod c05;
 pub mod c06;
+pub mod c07;
 pub mod c09;
 pub mod c12;
 pub mod c13;
@@ -34,6 +35,13 @@ pub fn dispatch(id: &str, tier: Tier, replay_file: Option<&Path>) -> i32 {
         "C04" => go!(c04),
         "C05" => go!(c05),
         "C06" => go!(c06),
+        "C07" => {
+            let spec = c07::spec_for(tier);
+            match replay_file {
+                Some(f) => replay(&spec, f),
+                None => drive(spec, tier),
+            }
+        }
         "C09" => go!(c09),
         "C12" => go!(c12),
         "C13" => go!(c13),
